@@ -100,11 +100,12 @@ type btScen struct {
 	Missing  int    // number of names that are not in the repository, listed first
 	Mode     string // dpor | s0
 	NoStrat  bool   // HTML: do not render the per-strategy reports (they are private to one worker and dominate the cost)
+	LastDays int    // look-back in days (0: the scenarios' default of 5); values of 10 and more cover the whole repository
 	Twice    bool   // Run is called twice on the same Backtest and report object; the second run is judged like the first
 }
 
 func (s btScen) String() string {
-	return fmt.Sprintf("assets=%d unknown-names=%d strategies=#%d workers=%d report=%s explicit=%v mode=%s strategyReports=%v runs=%d", s.NAssets, s.Missing, s.Strats, s.Workers, s.Report, s.Explicit, s.Mode, !s.NoStrat, map[bool]int{false: 1, true: 2}[s.Twice])
+	return fmt.Sprintf("assets=%d unknown-names=%d strategies=#%d workers=%d report=%s explicit=%v mode=%s strategyReports=%v runs=%d lastDays=%d", s.NAssets, s.Missing, s.Strats, s.Workers, s.Report, s.Explicit, s.Mode, !s.NoStrat, map[bool]int{false: 1, true: 2}[s.Twice], max(s.LastDays, 5))
 }
 
 func btStrategies(v int) []strategy.Strategy {
@@ -156,6 +157,9 @@ func btScenario(s btScen) explore.Scenario {
 					all = append(all, sn)
 					window = append(window, sn)
 				}
+				if s.LastDays >= 10 {
+					window = all // "whole history" look-backs: every snapshot of the repository is inside the window
+				}
 				repo.Append(name, Feed(all, 0))
 				for _, st := range btStrategies(s.Strats) {
 					a, o := strategy.ComputeWithOutcome(st, Feed(window, 0))
@@ -190,6 +194,9 @@ func btScenario(s btScen) explore.Scenario {
 			}
 			bt := backtest.NewBacktest(repo, rep)
 			bt.Workers, bt.LastDays, bt.Logger = s.Workers, 5, quietLogger
+			if s.LastDays > 0 {
+				bt.LastDays = s.LastDays
+			}
 			bt.Strategies = btStrategies(s.Strats)
 			if s.Explicit {
 				// names the repository does not know come first: they must be skipped, not stop a worker
@@ -454,6 +461,13 @@ func btScens(tier string) []btScen {
 					}
 				}
 			}
+		}
+	}
+	// look-backs from two weeks to "everything" (the command line tool's -last flag): whatever the number of days, the window
+	// is the calendar interval [now - days, now]
+	for _, days := range []int{14, 3650, 106751, 106752, 200000, 1000000, 50000000} {
+		for _, rep := range []string{"recorder", "data"} {
+			out = append(out, btScen{NAssets: 2, Strats: 1, Workers: 2, Report: rep, Explicit: true, Mode: "s0", LastDays: days})
 		}
 	}
 	// a second Run on the same Backtest / report object (canonical schedule; the first run's schedules are covered above)
